@@ -122,7 +122,7 @@ def main():
         ],
         "checks": checks,
         "not_applicable": na,
-        "notes": "Exit codes: 0 held, 1 violation (VIOLATION line + replay file), 2 inconclusive (INCONCLUSIVE line, never a VIOLATION). Known findings: known_findings.json (keyed by mechanism). Shared runtime monitors added to most checks by vf.main / vf.smooth: hostile memory layouts and input-unmodified check at the kernel boundary, life-cycle / concurrent / ambient-setting probes on the accessor objects (vf/reuse.py); a shard killed by a fatal signal or an unexpected exception raised inside the tree under test is reported as a violation of the property whose workload provoked it.",
+        "notes": "Exit codes: 0 held, 1 violation (VIOLATION line + replay file), 2 inconclusive (INCONCLUSIVE line, never a VIOLATION). Known findings: known_findings.json (keyed by mechanism). Shared runtime monitors added to most checks by vf.main / vf.smooth: hostile memory layouts and input-unmodified check at the kernel boundary, life-cycle / concurrent / ambient-setting probes on the accessor objects (vf/reuse.py), presentation probes (vf/present.py: the same content in other legal containers, parameter spellings, refused / failed / abandoned calls that must leave nothing behind, also as the first call of a lazily compiled kernel); a shard killed by a fatal signal or an unexpected exception raised inside the tree under test is reported as a violation of the property whose workload provoked it.",
     }
     (ROOT / "MANIFEST.json").write_text(json.dumps(man, indent=1) + "\n")
     print(f"MANIFEST.json: {len(checks)} checks, {len(na)} not claimed")
